@@ -1668,10 +1668,10 @@ func crRule(c *core.Ctx, key string, fn *ssa.Function, pack bool) {
 			r := role(plain, cond)
 			if pack {
 				// ((n*7)%8)==1
-				if strings.Contains(r, "*k7)%k8)==k1") {
-					found = true
+				if strings.Contains(r, "*k7)%k8)==k1") || strings.Contains(r, "*k7)%k8)!=k1") {
+					found = true // which edge leads to the fill is decided by the #guard rule
 				}
-			} else if strings.Contains(r, "%k8)==k0") {
+			} else if strings.Contains(r, "%k8)==k0") || strings.Contains(r, "%k8)!=k0") {
 				found = true
 			}
 		}
@@ -1694,7 +1694,7 @@ func crRule(c *core.Ctx, key string, fn *ssa.Function, pack bool) {
 		strip := false
 		for _, b := range fn.Blocks {
 			for _, ins := range b.Instrs {
-				if bo, ok := ins.(*ssa.BinOp); ok && bo.Op == token.EQL {
+				if bo, ok := ins.(*ssa.BinOp); ok && (bo.Op == token.EQL || bo.Op == token.NEQ) {
 					if k, ok := constInt(bo.Y); ok && k == 0x0d {
 						strip = true
 					}
